@@ -23,13 +23,17 @@ func main() {
 		Level: "exploration",
 		Rule: "closed-form estimators (scalar normal, exponential, poisson, geometric, categorical, negative binomial; vector normal, ScalarId, ScalarIid; Estimate and batch interface): ALL data sets of size 1..n over a 4-value alphabet per family x log-weights in {nil} u {0,log 1/2,log 1/4}^n x configured bounds; a case is non-trivial when the data set contains two different observations. " +
 			"Numeric estimator: data multisets x weights x 2 starting points x {newton,bfgs}; non-trivial when the estimator stopped for a reason other than its iteration budget (it claims convergence). " +
-			"EM: every data set (multisets for mixtures, sequences and pairs of sequences for HMMs) of <=4 (thorough 5) observations over a 3-value alphabet x every initial model of a 3-point lattice per parameter; every step of every trajectory is checked; a trajectory is non-trivial when the likelihood strictly increased in at least one step",
+			"EM: every data set (multisets for mixtures, sequences and pairs of sequences for HMMs) of <=4 (thorough 5) observations over a 3-value alphabet x every initial model of a 3-point lattice per parameter; every step of every trajectory is checked; a trajectory is non-trivial when the likelihood strictly increased in at least one step. " +
+			"Summarised data sets: scalarEstimator.DiscreteMixtureEstimator (poisson, categorical, geometric, negative binomial with fixed r; k=2, thorough 3) x ALL multisets of 1..5 (thorough 6) observations over a 3-value alphabet (repeated values included) x the initial lattice, driven through SetData+Estimate (MixtureSummarizedDataSet) and through EstimateOnData (promoted: not summarised); " +
+			"vectorEstimator.NewHmmSummarizedDataSet (no estimator of the library constructs it) through generic.BaumWelchAlgorithm with a core repeating HmmEstimator's steps; same EM oracle, plus the differential against the standard estimator on the expanded data, non-trivial when the data contain a repeated observation",
 		Assume: []string{
 			"thread pool of size one (schedule independence is C17)",
 			"EM monotonicity is demanded for component families whose M-step is the exact maximiser of the expected complete-data log-likelihood over the configured box: normal with sigma>=sigmaMin (clamping is the exact box-constrained maximiser, and every initial sigma of the lattice lies in the box), poisson, categorical, products of these, and one EM step of an inner mixture (generalised EM); numeric M-steps are only checked for stationarity of the stand-alone numeric estimator",
 			"initial EM parameters are interior (positive weights, positive emission probabilities); starts under which the data has probability zero are only required to fail loudly",
 			"estimators may fail loudly (error) when the likelihood has no maximiser at admissible parameters (all-zero Poisson data, singular sample covariance); this is counted, not reported",
 			"bivariate normal with an active variance bound: only the reference-free perturbation test applies (no closed form assumed)",
+			"differential summarised/standard: hook call i of the two runs must agree within 1e-9 (relative) whenever call i-1 agreed within 1e-12; a slow drift of rounding differences along a trajectory is counted, not reported",
+			"negative binomial components: r is fixed by the estimator, the M-step over p is exact",
 		},
 		Run: func(c *vf.Ctx) {
 			thorough := c.Thorough()
